@@ -24,6 +24,8 @@ DOC_C = "{ b { strict } num }"
 DOC_D = "{ hello(n: 1) num }"
 DOC_E = "{ a { a } color }"
 DOC_F = "query Q($s: Boolean!) { a { id @skip(if: $s) name } }"
+DOC_G = "{ ...RF color } fragment RF on Query { num a { ...AF } } fragment AF on A { id }"
+DOC_H = "{ ...RF } fragment RF on Query { color hello(n: 2) }"
 POOL = [
     # label, text, op, variables, faults, variant, ctx-kind
     ("skip-true", DOC_A, None, {"s": True}, {}, 1, "scn"),
@@ -32,6 +34,8 @@ POOL = [
     ("op-two", DOC_B, "Two", None, {}, 3, "scn"),
     ("nested-skip-true", DOC_F, None, {"s": True}, {}, 1, "scn"),
     ("nested-skip-false", DOC_F, None, {"s": False}, {}, 1, "scn"),
+    ("root-fragment", DOC_G, None, None, {}, 1, "scn"),
+    ("root-fragment-same-name-other-body", DOC_H, None, None, {}, 2, "scn"),
     ("failing", DOC_C, None, None, {("b", "strict"): "none"}, 1, "scn"),
     ("bytes", DOC_A.encode(), None, {"s": False}, {}, 1, "scn"),
     ("dict-context", DOC_D, None, None, {}, 2, "dict"),
